@@ -12,7 +12,7 @@ From Coq Require Import List ZArith NArith Bool.
 From BBS Require Import Common.Sx Buffer.Source Buffer.Validate Buffer.Convert Buffer.ErrHandler
   Buffer.StreamProofs Buffer.ValidateProofs Buffer.ErrHandlerProofs Buffer.ClosedOnceProofs
   Buffer.ErrHandlerStackProofs Buffer.StackRuleProofs Buffer.ValidateReaderProofs Buffer.ConvertProofs
-  Buffer.EHFullCarry Buffer.EHFullReader Buffer.EHFullMethods Run.R09 Run.R16 Run.R16Proofs.
+  Buffer.EHFullCarry Buffer.EHFullReader Buffer.EHFullMethods Buffer.EHFullStack Run.R09 Run.R16 Run.R16Proofs.
 Import ListNotations.
 Open Scope N_scope.
 
@@ -138,6 +138,19 @@ Theorem no_dup_no_skip_every_method : forall H cfg fuel C b0 answers m,
   x_data (run_case H cfg fuel b0 answers m) = expected_slice m C.
 Proof. exact run_case_no_dup_no_skip. Qed.
 Print Assumptions no_dup_no_skip_every_method.
+
+(** ... and for STACKS of error handlers of any depth ([run_stack]): the
+    original buffer and every replacement supplied by ANY level carry [C]
+    ([anss]: the handler scripts, innermost first).  (Buffer/EHFullStack.v: the
+    nested error-handling readers themselves satisfy the carrier law — the
+    reader in use carries C[off..] where [off] is the delivered offset all
+    active levels share, a replacement supplied by any level is opened at [off].) *)
+Theorem no_dup_no_skip_every_method_stack : forall H cfg fuel C b0 anss m,
+  carries_full C b0 -> Forall (Forall (ans_carries C)) anss -> m <> MDiscard ->
+  completed m (y_err (run_stack H cfg fuel b0 anss m)) = true ->
+  y_data (run_stack H cfg fuel b0 anss m) = expected_slice m C.
+Proof. exact run_stack_no_dup_no_skip. Qed.
+Print Assumptions no_dup_no_skip_every_method_stack.
 
 (** The content is still validated across the stitched parts: the validated
     stream above the error-handling reader completes only if the stitched
@@ -363,3 +376,16 @@ Proof.
   split; [|vm_compute; reflexivity].
   cbn. intros (C' & E & C'' & E2 & _). injection E as <-. cbn in E2. discriminate E2.
 Qed.
+
+(** Non-vacuity for stacks: the inner handler gives up (error 7), the outer one
+    supplies a reader-backed replacement, opened at offset 1; all buffers carry
+    1,2,3; ToReader with read sizes 2,1,... delivers 1,2,3 once each. *)
+Example c16_stack_carries :
+  let H := lookup [([1; 2; 3], [9; 9])] in
+  let cfg := mkVcfg [9; 9] 3 13 in
+  let b1 := BReader [Chunk [1; 2; 3]] true in
+  carries_full [1; 2; 3] b1 /\
+  run_stack H cfg 60 (BChunk [Chunk [1]; Err 14; Chunk [7]]) [[Fail 7]; [Replace b1]] (MToReader [2; 1] 0)
+  = mkOut16s [1; 2; 3] EEof [] [true]
+             [[HOnError (ECode 14); HDone]; [HOnError (ECode 7); HDone]] [1%nat; 1%nat] [].
+Proof. vm_compute. split; [exists []; auto|reflexivity]. Qed.
